@@ -32,6 +32,9 @@ BaseImps ==
     [k |-> "imp", level |-> 0, mod |-> "revolt.errors", names |-> <<Nm("SubstitutionError", "", ToSubErr)>>, form |-> "one"],
     \* "u_alias" is rendered as a non-ASCII identifier (columns counted in bytes are not columns in characters)
     [k |-> "imp", level |-> 0, mod |-> "district42", names |-> <<Nm("schema", "u_alias", ToSchema)>>, form |-> "one"],
+    \* a mapped name imported from a sibling module under which it is *not* mapped: left alone
+    [k |-> "imp", level |-> 0, mod |-> "revolt", names |-> <<Nm("SubstitutionError", "", <<>>)>>, form |-> "one"],
+    [k |-> "imp", level |-> 0, mod |-> "district42.types", names |-> <<Nm("schema", "", <<>>)>>, form |-> "one"],
     [k |-> "imp", level |-> 0, mod |-> "os", names |-> <<Nm("path", "", <<>>)>>, form |-> "one"],
     [k |-> "imp", level |-> 1, mod |-> "district42", names |-> <<Nm("schema", "", <<>>)>>, form |-> "one"],
     [k |-> "imp", level |-> 0, mod |-> "district42", names |-> <<Nm("*", "", <<>>)>>, form |-> "one"] }
